@@ -29,6 +29,12 @@ TraceSpec == TraceInit /\ [][TraceNext]_<<cvars, l>>
 \* every consumed record finished with one of the two outcomes
 Consumed == finished["artifacts"] + finished["diagnostics"] = l - 1
 
+\* The records no Compiled step can consume.  Acceptance of a record does not depend on the records before it
+\* (every compilation starts from "idle"), so after a rejection the driver reads this set to report ALL the
+\* offending records of the shard at once, removes them, and validates the rest again.
+Unconsumable == { i \in 1..Len(Rec) : Rec[i].outcome \notin Outcomes }
+ASSUME PrintT(<<"UNCONSUMABLE", ToJson(Unconsumable)>>)
+
 Accepted ==
     IF TLCGet(1) = Len(Rec) + 1 THEN TRUE
     ELSE Print(<<"FIRST-UNMATCHED", TLCGet(1), ToJson(Rec[TLCGet(1)])>>, FALSE)
